@@ -586,7 +586,8 @@ bool Instance::configure_tx_txin() {
         }
         // put remainder on to-be-parsed stack
         for (size_t i = 0; i < wstack_to_stack; i++) {
-            push_del.push_back(strdup(HexStr(wstack[i]).c_str())); // TODO: use as is rather than hexing and dehexing
+            // the 0x prefix keeps an item whose hex digits happen to read as a decimal number (51, 1234) from being taken for that number
+            push_del.push_back(strdup((wstack[i].empty() ? std::string("") : "0x" + HexStr(wstack[i])).c_str())); // TODO: use as is rather than hexing and dehexing
         }
     } else {
         // legacy
